@@ -263,7 +263,44 @@ def run_text_case(case, part):
                 check_parse(part, lambda w2=w2: json.dumps(w2), loc, harness.locate(w2, loc), version, key, dict(case, slot=list(path), text=tlabel, context="parse(text)"), "free-text/" + tlabel, "text:")
 
 
+def special_valid():
+    """hand-written valid instances where TWO properties meet at a boundary value (co-constraints evaluated on zero / false / empty-but-legal values)"""
+    g21 = gen.Gen("2.1")
+    loc = {k: v for k, v in g21.minimal("objects:location").items() if k not in ("region", "country", "latitude", "longitude", "precision")}
+    nt = g21.minimal("observables:network-traffic")
+    out = [
+        ("location-by-coordinates/latitude-zero", "2.1", "objects:location", dict(loc, latitude=0.0, longitude=39.668)),
+        ("location-by-coordinates/longitude-zero", "2.1", "objects:location", dict(loc, latitude=51.477, longitude=0.0)),
+        ("location-by-coordinates/both-zero", "2.1", "objects:location", dict(loc, latitude=0, longitude=0)),
+        ("location-by-coordinates/both-zero+precision-zero", "2.1", "objects:location", dict(loc, latitude=0.0, longitude=0.0, precision=0.0)),
+        ("location-by-coordinates/negative-zero", "2.1", "objects:location", dict(loc, latitude=-0.0, longitude=-0.0)),
+        ("location-by-region+precision-with-zero-coordinates", "2.1", "objects:location", dict(loc, region="caribbean", latitude=0.0, longitude=0.0, precision=10.0)),
+        ("network-traffic/ports-zero", "2.1", "observables:network-traffic", dict(nt, src_port=0, dst_port=0)),
+        ("network-traffic/byte-counts-zero", "2.1", "observables:network-traffic", dict(nt, src_byte_count=0, dst_byte_count=0, src_packets=0, dst_packets=0)),
+        ("network-traffic/ended+is_active-false", "2.1", "observables:network-traffic", dict(nt, start="2016-05-12T08:17:27Z", end="2016-05-12T08:17:27Z", is_active=False)),
+    ]
+    return out
+
+
+def run_special_valid(case, part):
+    env.reset()
+    for label, version, key, inst in special_valid():
+        if case.get("label") not in (None, label):
+            continue
+        wrapped = dict(inst)
+        if key.startswith("observables:"):
+            wrapped = dict(inst, spec_version="2.1", id="%s--3f7f0c5f-5d54-4292-94ea-ec1e1952be0d" % inst["type"])
+        errs = model.validate(wrapped, version)
+        if errs:
+            raise RuntimeError("special instance rejected by the frozen validator: %s %r" % (label, errs[:2]))
+        part.state((version, key, label), nontrivial=True)
+        for cname, make, loc in contexts(version, key, wrapped, ()):
+            check_parse(part, make, loc, wrapped, version, key, {"kind": "special-valid", "label": label, "context": cname}, "two-properties-meet/" + label.split("/")[0], "special:")
+
+
 def run_any(case, part):
+    if case.get("kind") == "special-valid":
+        return run_special_valid(case, part)
     if case.get("kind") == "text-case":
         return run_text_case(case, part)
     if case.get("kind") == "hash-case":
@@ -314,6 +351,7 @@ def run(run):
             cases.append({"kind": "text-case", "version": version, "key": key})
     for version, which in (("2.0", "long-lists"), ("2.1", "long-lists"), ("2.1", "prefix-keys"), ("2.1", "long-nested-list")):
         cases.append({"kind": "granular-extra", "version": version, "which": which})
+    cases.append({"kind": "special-valid"})
     run.pmap(run_any, cases, order_independent=True)
     run.part.sample({"version": "2.1", "key": "observables:network-traffic", "label": "min+end#2", "instance": "minimal network-traffic + end='2017-05-12T08:17:27.5Z' (+ is_active=false)"})
     run.part.sample({"version": "2.0", "key": "observables:file", "label": "max", "context": "member '0' of an observed-data container with its referenced members"})
